@@ -391,11 +391,11 @@ class ShimNp:
         return getattr(self._np, k)
 
     def isclose(self, a, b, rtol=1e-5, atol=1e-8):
-        if not isinstance(a, Sym) and not isinstance(b, Sym):
+        if not any(isinstance(x, Sym) for x in (a, b, atol, rtol)):
             return bool(self._np.isclose(a, b, rtol=rtol, atol=atol))
-        if rtol == 0:
+        if not isinstance(rtol, Sym) and rtol == 0:
             dt = lift(a) - lift(b)
-            return SymBool(z3.And(dt <= rv(atol), -dt <= rv(atol)))
+            return SymBool(z3.And(dt <= lift(atol), -dt <= lift(atol)))
         d = abs(a - b)
         return d <= atol + rtol * abs(b)
 
